@@ -34,10 +34,16 @@ type atUndoCfg struct {
 	Validation bool   `json:"data_validation"`
 	OnlyCare   bool   `json:"only_care_update_columns"`
 	Threshold  string `json:"compress_threshold,omitempty"`
+	// Loc: time zone of the client's connections (DSN parameter loc); "" = the driver's default, UTC
+	Loc string `json:"-"`
 }
 
 func (c atUndoCfg) String() string {
-	return fmt.Sprintf("ser=%s|comp=%s|validate=%v|onlycare=%v", c.Serializer, c.Compress, c.Validation, c.OnlyCare)
+	s := fmt.Sprintf("ser=%s|comp=%s|validate=%v|onlycare=%v", c.Serializer, c.Compress, c.Validation, c.OnlyCare)
+	if c.Loc != "" {
+		s += "|loc=" + c.Loc
+	}
+	return s
 }
 
 type worldT = world.World
@@ -57,9 +63,15 @@ func newATEnvOpts(r *vc.Run, name string, cfg atUndoCfg, race bool, driver strin
 	if driver == "" {
 		driver = "seata-at-mysql"
 	}
+	extra := ""
+	if cfg.Loc != "" {
+		// DATE / DATETIME values reach the client as times in this zone (a zone west of UTC: midnight there is the
+		// previous calendar day in UTC)
+		extra = "interpolateParams=true&parseTime=true&multiStatements=true&loc=" + strings.ReplaceAll(cfg.Loc, "/", "%2F")
+	}
 	ch, err := w.StartClient(name, race, world.InitArg{Replace: replace, DBs: []world.DBSpec{
-		{Name: "at", Driver: driver, DSN: db.DSN("app", ""), MaxOpen: 8, Class: "proxied"},
-		{Name: "plain", Driver: "mysql", DSN: db.DSN("foreign", ""), MaxOpen: 4},
+		{Name: "at", Driver: driver, DSN: db.DSN("app", extra), MaxOpen: 8, Class: "proxied"},
+		{Name: "plain", Driver: "mysql", DSN: db.DSN("foreign", extra), MaxOpen: 4},
 	}}, nil)
 	if err != nil {
 		w.Close()
